@@ -488,6 +488,12 @@ func VerifC11Encoders() {
 	} else {
 		verifCover("C11/encoders/output")
 	}
+	// the run goes on: the same printer and encoder write the next documents (counters an encoder keeps between
+	// documents - an indent level, a "first document" flag - must not run away)
+	for i := 1; i <= 2; i++ {
+		next := vDocAt(vMap(vStr("p"), vInt("1"), vStr("q"), vMap(vStr("r"), vSeq(vInt("2")))), uint(i), 0, "f.yml")
+		_ = printer.PrintResults(next.AsList())
+	}
 	verifCover("C11/encoders/end")
 }
 
